@@ -80,7 +80,8 @@ CSRec(q, w, evict, f, acc) ==
          IN IF h.t = "T" /\ evict
             THEN CSRec(rest, w, evict, f, acc3)
             ELSE IF p.t = "V" /\ h.t = "W"
-            THEN CSRec(rest, w, evict, f, acc3)
+            \* the weak tombstone cancels out the one insert below it, nothing else
+            THEN CSRec(Tail(r), w, evict, f, [acc2 EXCEPT !.dropped = Append(@, p)])
             ELSE CSRec(rest, w, evict, f, emit(acc3))
     ELSE CSRec(r, w, evict, f, emit(acc2))
 
@@ -214,10 +215,11 @@ SvEntries(sv, M, T) ==
     M[sv.act] \cup UNION {M[sv.sealed[i]] : i \in 1..Len(sv.sealed)}
               \cup UNION {TEff(T[t]) : t \in AllIds(sv.lv)}
 
-\* bounds: [lo |-> <<kind, key>>, hi |-> <<kind, key>>], kind \in {"U","I","E"}
+\* bounds: [lo |-> <<kind, x>>, hi |-> <<kind, x>>], kind \in {"U","I","E"}; x is a
+\* doubled key: 2k stands for key k, 2k+1 for a byte string strictly between k and k+1
 InBounds(k, b) ==
-    /\ CASE b.lo[1] = "U" -> TRUE [] b.lo[1] = "I" -> k >= b.lo[2] [] b.lo[1] = "E" -> k > b.lo[2]
-    /\ CASE b.hi[1] = "U" -> TRUE [] b.hi[1] = "I" -> k <= b.hi[2] [] b.hi[1] = "E" -> k < b.hi[2]
+    /\ CASE b.lo[1] = "U" -> TRUE [] b.lo[1] = "I" -> 2*k >= b.lo[2] [] b.lo[1] = "E" -> 2*k > b.lo[2]
+    /\ CASE b.hi[1] = "U" -> TRUE [] b.hi[1] = "I" -> 2*k <= b.hi[2] [] b.hi[1] = "E" -> 2*k < b.hi[2]
 
 \* ascending sequence of <<k, v>> visible at S inside the bounds
 ScanOf(E, S, b) ==
